@@ -53,7 +53,7 @@ AllocateSlow ==
 \* handler still runs to its end when the callback returns -- whatever it creates then is gone again when its
 \* connection's goroutine winds up (a straggler at most), and nothing is left on the closed server.
 AllocateSlowAuth ==
-  /\ Idle /\ Stream /\ gen < MaxGen /\ ~live
+  /\ Idle /\ gen < MaxGen /\ ~live
   /\ last' = [a |-> "AllocateSlowAuth"]
   /\ cb' = "auth" /\ UNCHANGED <<gen, live, rem, zombies, down>>
   /\ out' = {}
